@@ -2,6 +2,7 @@ import Hls.Playlist.MediaNear
 import Hls.Playlist.MediaGenPins
 import Hls.Playlist.MediaPerm
 import Hls.Playlist.MediaTime
+import Hls.Playlist.MediaFloat
 /-!
 # C14 — Playlist Marshal/Unmarshal round-trips every field (MEDIA playlists)
 
@@ -170,8 +171,19 @@ stable under millisecond truncation and uses RFC 3339 characters.  Hence any cod
 layout is `Valid` as soon as its duration half is inside the float envelope. -/
 theorem c14_go_time (D : Codec) (h : D.DurValid) : D.withGoTime.Valid := Codec.withGoTime_valid h
 
-/-- **Round trip and fixpoint for the driver's codec `Codec.go`** (exact IEEE-754 semantics of `strconv`,
-Go time layout) under the single named hypothesis `IeeeEnvelope` (float error envelope, DESIGN §2). -/
+/-- **No assumption left for the codec the driver runs.**  `Codec.prim` = the soft-float model of
+`strconv.ParseFloat` / `FormatFloat` / float64 arithmetic of `Hls/Playlist/Prim.lean` (slice `plmulti`,
+whose `floatEnvelope` theorem proves the error envelope) + the Go time layout (proved here).  This is the
+codec tie T2 compares with the real library on every generated value and text. -/
+theorem c14_media_roundtrip_driver (p : Media) (hw : WFMedia p) :
+    Media.unmarshal Codec.prim (Media.marshal Codec.prim p) = .ok (Media.quantise Codec.prim p) ∧
+    MediaNear (Media.quantise Codec.prim p) p ∧
+    Media.marshal Codec.prim (Media.quantise Codec.prim p) = Media.marshal Codec.prim p :=
+  ⟨Media.roundtrip Codec.prim_valid p hw, Media.quantise_near Codec.prim_valid p hw,
+   Media.marshal_quantise Codec.prim_valid p hw⟩
+
+/-- the same for my own IEEE-754 reference `Codec.go` (`MediaPrim.lean`), for which the float half is
+the named hypothesis `IeeeEnvelope` (the time half is proved) -/
 theorem c14_media_roundtrip_go (hE : IeeeEnvelope) (p : Media) (hw : WFMedia p) :
     Media.unmarshal Codec.go (Media.marshal Codec.go p) = .ok (Media.quantise Codec.go p) ∧
     MediaNear (Media.quantise Codec.go p) p ∧
